@@ -19,9 +19,6 @@ Proof.
   specialize (Hr s (nth_error_In _ _ E)). lia.
 Qed.
 
-Lemma consts_loadfactor : strmap_loadfactor_num = 3%Z /\ strmap_loadfactor_den = 4%Z.
-Proof. split; reflexivity. Qed.
-
 Lemma primes_enough : (32 <= length strmap_bits2primes)%nat.
 Proof. vm_compute. lia. Qed.
 
@@ -33,16 +30,30 @@ Proof.
   change (2 ^ 32) with 4294967296 in *. unfold two31 in H. lia.
 Qed.
 
-Lemma slots_ok n : n < max_items -> exists s, slots n = Ok s.
+(* parametric in the load factor: only the length of the prime table matters *)
+Lemma slots_ok n : count_ok n -> exists s, slots n = Ok s.
 Proof.
-  intros H. unfold slots.
-  destruct consts_loadfactor as [-> ->]. change (Z.to_N 4) with 4. change (Z.to_N 3) with 3.
-  assert (Hx : n * 4 / 3 < two31).
-  { apply N.div_lt_upper_bound; [lia|]. unfold max_items, two31 in *. lia. }
+  intros [_ Hx]. unfold slots.
   pose proof (size_le_31 _ Hx) as Hs.
-  destruct (nth_error strmap_bits2primes (N.to_nat (N.size (n * 4 / 3)))) as [p|] eqn:E.
+  destruct (nth_error strmap_bits2primes _) as [p|] eqn:E.
   - eauto.
   - apply nth_error_None in E. pose proof primes_enough. lia.
+Qed.
+
+(* key counts up to any bound that is itself acceptable are acceptable *)
+Lemma count_ok_mono n b : n <= b -> count_ok b -> count_ok n.
+Proof.
+  intros Hnb [Hb Hx]. split; [lia|].
+  eapply N.le_lt_trans; [|exact Hx].
+  apply N.div_le_mono.
+  - destruct (Z.to_N strmap_loadfactor_num) eqn:E; [|discriminate].
+    (* a zero numerator: both quotients are 0 *) exfalso. revert E. vm_compute. discriminate.
+  - apply N.mul_le_mono_r. exact Hnb.
+Qed.
+
+Lemma count_ok_1e5 n : n <= 100000 -> count_ok n.
+Proof.
+  intros H. apply (count_ok_mono n 100000 H). split; vm_compute; reflexivity.
 Qed.
 
 (* ================= the map ================= *)
@@ -327,7 +338,7 @@ Qed.
 
 (* makeHashtable on items as the load loop leaves them *)
 Lemma make_hashtable_spec d dc its ic backing :
-  Forall (pregood d) its -> len its < max_items ->
+  Forall (pregood d) its -> count_ok (len its) ->
   exists st', make_hashtable sort d dc its ic backing = (st', Ok tt) /\
     loaded st' /\ data st' = d /\
     Permutation (map (kv d) its) (map (kv d) (items st')).
@@ -361,13 +372,13 @@ Proof.
   { eapply Forall_impl; [|exact Hg2]. intros e [_ He]. rewrite He, Hl1. unfold hslot.
     apply N.mod_lt. lia. }
   destruct (fill_spec its2 tb1 0 Hsl) as (tb2 & Hf & Hl2 & Hnth).
-  { rewrite Hlen2. unfold max_items, two31 in *. lia. }
+  { rewrite Hlen2. destruct Hn as [Hn _]. unfold two31 in *. lia. }
   rewrite Hf. eexists. split; [reflexivity|].
   assert (Hlt2 : len tb2 = sn) by (unfold len in *; congruence).
   split; [|split; [reflexivity|]].
   - constructor; cbn [table items data].
     + rewrite Hlt2. unfold two31, two32 in *. lia.
-    + rewrite Hlen2. unfold max_items, two31 in *. lia.
+    + rewrite Hlen2. apply Hn.
     + rewrite Hlt2. exact Hg2.
     + apply sorted_strongly, sort_sorted.
     + intros x Hx. rewrite Hl2 in Hx. rewrite (Hnth x Hx).
@@ -382,7 +393,7 @@ Qed.
 
 
 Theorem load_ok st kk (vv : list V) :
-  length kk = length vv -> Forall small kk -> len kk < max_items ->
+  length kk = length vv -> Forall small kk -> count_ok (len kk) ->
   exists st', load hash sort st kk vv = (st', Ok tt) /\ loaded st' /\
     Permutation (map (kv (data st')) (items st')) (combine kk vv).
 Proof.
@@ -495,7 +506,7 @@ Theorem get_empty st s :
   snd (load hash sort st [] []) = Ok tt /\ get hash (fst (load hash sort st [] [])) s = Ok None.
 Proof.
   apply (get_spec st [] [] s); [reflexivity|constructor|].
-  split; [constructor|]. unfold max_items. cbn. lia.
+  split; [constructor|]. split; vm_compute; reflexivity.
 Qed.
 
 (* LoadFromMap: whatever order the range loop visits the pairs in *)
